@@ -119,6 +119,12 @@ def showFont (f : Spec.FontSummary) (full : Bool := false) : String :=
 
 @[noinline] def readFontWith (std : Array String) (b : Bytes) := Spec.readFont std b
 
+def tables : Tables :=
+  { std := Gen.cffStdStrings, isoAdobe := Gen.cff_isoAdobeCharset, expert := Gen.cff_expertCharset,
+    expertSubset := Gen.cff_expertSubsetCharset, expertEnc := Gen.cffExpertEnc,
+    standardEncRev := Gen.cffStandardEncRev }
+
+
 /-! parsing of the font description `name:…;strs:…;…` (see harness/area_cff.go, c13Font) -/
 
 def descFields (s : String) : List (String × String) :=
@@ -184,13 +190,14 @@ def parseFontIn (desc : String) (cs : List Bytes) (dw nw : Int) : Option FontIn 
     else match v.splitOn "," with
       | [r, o, sup] => do pure (some (← parseBlobStr r, ← parseBlobStr o, ← sup.toInt?))
       | _ => none
+  let names ← (get "names").bind parseDashStrs
   let enc ← (match get "enc" with
-    | some v => (parseNatList v).map EncChoice.custom
+    | some v => (parseNatList v).map fun e => encChoiceOf tables (some e) names
     | none => some EncChoice.standard)
   pure { fontName := name, strs := strs, isFixedPitch := get "fixed" == some "1",
          ulPos := ← parseDecOperand ulp, ulThick := ← parseDecOperand ult,
          ulPosDefault := ulp == "-1e2", ulThickDefault := ult == "5e1",
-         ros := ros, names := ← (get "names").bind parseDashStrs, cids := ← (get "cs").bind parseDashInts,
+         ros := ros, names := names, cids := ← (get "cs").bind parseDashInts,
          enc := enc, fds := ← (get "fds").bind parseDashInts,
          privs := ← (get "privs").bind fun v => (v.splitOn "/").mapM parsePrivIn,
          charStrings := cs, defWidth := dw, nomWidth := nw,
@@ -214,11 +221,6 @@ def round9 (r : Rl) : Rl :=
     let p := 10 ^ (d - 9)
     let q := (r.2.1 + p / 2) / p
     normReal r.1 q (r.2.2 + ((d - 9 : Nat) : Int))
-
-def tables : Tables :=
-  { std := Gen.cffStdStrings, isoAdobe := Gen.cff_isoAdobeCharset, expert := Gen.cff_expertCharset,
-    expertSubset := Gen.cff_expertSubsetCharset, expertEnc := Gen.cffExpertEnc,
-    standardEncRev := Gen.cffStandardEncRev }
 
 def showBStr (s : String) : String := showBlob (strToBlob s)
 
